@@ -8,7 +8,7 @@ observers of `BppModel/Observer.lean`.  A `DW` is a `World` (graph + observers) 
 flags of the DAG container.  Every wrapper is `getNodeGraphid` (throws for an unknown object), the
 container call, and `getNodesFromGraphid` on the answer (ids without object are skipped).
 
-`addFather(node, father, edgeObject)` (:307) / `addSon(node, son, edgeObject)` (:329) with an edge object
+`addFather(node, father, edgeObject)` (:271) / `addSon(node, son, edgeObject)` (:293) with an edge object
 try the id-level call with `getEdgeGraphid(edgeObject)` and fall back to the observer's `link` in the
 `catch`: for an unknown object `getEdgeGraphid` throws; for a known one the id exists in the graph and
 `GlobalGraph::link(a, b, id)` throws "already existing edgeId" — either way, and also for unknown node
@@ -26,7 +26,7 @@ deriving DecidableEq, Repr
 namespace DW
 open TW (WRes)
 
-/-- `AssociationDAGraphImplObserver()` (:42): a directed graph -/
+/-- `AssociationDAGraphImplObserver()` (:37): a directed graph -/
 def init : DW := { w := World.init true }
 
 def toD (dw : DW) : D := { g := dw.w.g, valid := dw.valid, rooted := dw.rooted }
@@ -77,7 +77,7 @@ def ids2 (dw : DW) (k : Nat) (a b : Obj) : Option (Option (Nat × Nat)) :=
     | some ia, some ib => some (some (ia, ib))
     | _, _ => some none
 
-/-- `addFather(nodeObject, fatherObject, edgeObject)` (:307) -/
+/-- `addFather(nodeObject, fatherObject, edgeObject)` (:271) -/
 def addFather (dw : DW) (k : Nat) (n f : Obj) (x : Option Obj) : WRes × DW :=
   match x with
   | some _ => dw.link k f n x
@@ -87,7 +87,7 @@ def addFather (dw : DW) (k : Nat) (n f : Obj) (x : Option Obj) : WRes × DW :=
     | some none => (.exc .bpp, dw)
     | some (some (inn, ifa)) => ofG (touch (unit (dw.liftW (dw.w.g.link ifa inn))))
 
-/-- `addSon(nodeObject, sonObject, edgeObject)` (:329) -/
+/-- `addSon(nodeObject, sonObject, edgeObject)` (:293) -/
 def addSon (dw : DW) (k : Nat) (n s : Obj) (x : Option Obj) : WRes × DW :=
   match x with
   | some _ => dw.link k n s x
@@ -100,7 +100,7 @@ def addSon (dw : DW) (k : Nat) (n s : Obj) (x : Option Obj) : WRes × DW :=
 /-- `DAGraphImpl::removeSon` with the observers told -/
 def removeSonG (dw : DW) (n s : Nat) : GOut Unit × DW := unit (dw.liftW (dw.w.g.unlink n s))
 
-/-- `DAGraphImpl::removeFather` (:303) with the observers told -/
+/-- `DAGraphImpl::removeFather` (DAGraphImpl.h:303) with the observers told -/
 def removeFatherG (dw : DW) (n f : Nat) : GOut Unit × DW :=
   match RowQ.nbIn (dw.w.g.rowOf n) with
   | none => (.exc dw.w.g, dw)
@@ -108,21 +108,21 @@ def removeFatherG (dw : DW) (n f : Nat) : GOut Unit × DW :=
     let d1 : DW := if c = 1 then { dw with rooted := false } else dw
     unit (d1.liftW (d1.w.g.unlink f n))
 
-/-- `removeSon(nodeObject, sonObject)` (:298) -/
+/-- `removeSon(nodeObject, sonObject)` (:259) -/
 def removeSon (dw : DW) (k : Nat) (n s : Obj) : WRes × DW :=
   match dw.ids2 k n s with
   | none => (.ub, dw)
   | some none => (.exc .bpp, dw)
   | some (some (inn, is)) => ofG (dw.removeSonG inn is)
 
-/-- `removeFather(nodeObject, fatherObject)` (:276) -/
+/-- `removeFather(nodeObject, fatherObject)` (:242) -/
 def removeFather (dw : DW) (k : Nat) (n f : Obj) : WRes × DW :=
   match dw.ids2 k n f with
   | none => (.ub, dw)
   | some none => (.exc .bpp, dw)
   | some (some (inn, ifa)) => ofG (dw.removeFatherG inn ifa)
 
-/-- `removeSons(nodeObject)` (:287) / `removeFathers(nodeObject)` (:265): the removed nodes as objects, read
+/-- `removeSons(nodeObject)` (:251) / `removeFathers(nodeObject)` (:233): the removed nodes as objects, read
 from the maps as they are after the removals -/
 def removeAll (dw : DW) (k : Nat) (a : Obj) (fathers : Bool) : Option (List Obj) × WRes × DW :=
   match dw.w.getObs k with
@@ -142,7 +142,7 @@ def removeAll (dw : DW) (k : Nat) (a : Obj) (fathers : Bool) : Option (List Obj)
           | none => (none, .ub, r.2)
         | .exc _ => (none, .exc .bpp, r.2)
 
-/-- `rootAt(nodeObject)` (:137): the container's `rootAt`; no notification is involved -/
+/-- `rootAt(nodeObject)` (:134): the container's `rootAt`; no notification is involved -/
 def rootAt (dw : DW) (k : Nat) (a : Obj) : TRes (WRes × DW) :=
   match dw.w.getObs k with
   | none => .ok (.ub, dw)
@@ -158,17 +158,17 @@ def rootAt (dw : DW) (k : Nat) (a : Obj) : TRes (WRes × DW) :=
       | .fuel => .fuel
       | .ub => .ub
 
-/-- `isValid()` (:96) -/
+/-- `isValid()` (:99) -/
 def isValid (dw : DW) : TRes Bool × DW :=
   let r := dw.toD.isValid
   (r.1, { dw with valid := r.2.valid })
 
-/-- `isRooted()` (:106) -/
+/-- `isRooted()` (:108) -/
 def isRooted (dw : DW) : Bool × DW :=
   let r := dw.toD.isRooted
   (r.1, { dw with rooted := r.2.rooted })
 
-/-- the copy constructor (:62) / `clone()` (:87) / `operator=` (:76): the base class's (C14) -/
+/-- the copy constructor (:55) / `clone()` (:89) / `operator=` (:74): the base class's (C14) -/
 def ofObsOnly (dw : DW) (r : OOut Unit) : WRes × DW :=
   match r with
   | .ok _ w' => (.ok, { dw with w := w' })
@@ -180,21 +180,21 @@ def assignObs (dw : DW) (j k : Nat) : WRes × DW := dw.ofObsOnly (dw.w.assign j 
 
 /-! ### queries through objects -/
 
-/-- `getFathers(nodeObject)` (:116) / `getSons(nodeObject)` (:163) -/
+/-- `getFathers(nodeObject)` (:119) / `getSons(nodeObject)` (:156) -/
 def fathersObj (dw : DW) (o : Obs) (a : Obj) : Option (List Obj) := World.nodeQuery dw.w o a (fun g n => g.inNeighbors n) false
 def sonsObj (dw : DW) (o : Obs) (a : Obj) : Option (List Obj) := World.nodeQuery dw.w o a (fun g n => g.outNeighbors n) false
-/-- `getNumberOfFathers` (:214) / `getNumberOfSons` (:224) / `hasFather` (:147) -/
+/-- `getNumberOfFathers` (:203) / `getNumberOfSons` (:213) / `hasFather` (:142) -/
 def nbFathersObj (dw : DW) (o : Obs) (a : Obj) : Option Nat := (AL.find a o.Ng).bind (fun ia => RowQ.nbIn (dw.w.g.rowOf ia))
 def nbSonsObj (dw : DW) (o : Obs) (a : Obj) : Option Nat := (AL.find a o.Ng).bind (fun ia => RowQ.nbOut (dw.w.g.rowOf ia))
-/-- `getSon(edgeObject)` (:183) / `getFatherOfEdge(edgeObject)` (:198): `some none` = the node has no object -/
+/-- `getSon(edgeObject)` (:172) / `getFatherOfEdge(edgeObject)` (:188): `some none` = the node has no object -/
 def sonOfEdge (dw : DW) (o : Obs) (x : Obj) : Option (Option Obj) := (World.edgeEnds dw.w o x).map (·.2)
 def fatherOfEdge (dw : DW) (o : Obs) (x : Obj) : Option (Option Obj) := (World.edgeEnds dw.w o x).map (·.1)
-/-- `getLeavesUnderNode(nodeObject)` (:235) -/
+/-- `getLeavesUnderNode(nodeObject)` (:224) -/
 def leavesUnderObj (dw : DW) (o : Obs) (a : Obj) : TRes (List Obj) :=
   match AL.find a o.Ng with
   | none => .exc
   | some ia => TW.showIds o.nodesFromGids (dw.toD.leavesUnderQ ia)
-/-- `getBelowNodes` (:358) / `getBelowEdges` (:363); `mustBeValid_` may write the cache -/
+/-- `getBelowNodes` (:348) / `getBelowEdges` (:353); `mustBeValid_` may write the cache -/
 def belowObj (dw : DW) (o : Obs) (a : Obj) (edges : Bool) : TRes (List Obj) × DW :=
   match AL.find a o.Ng with
   | none => (.exc, dw)
